@@ -174,6 +174,7 @@ let run_one (p : parsed) idx =
   let prog = { p_classes = dense "class" p.classes; p_scripts = dense "script" p.scripts; p_main = p.main } in
   let fuel = nat_of_int !fuel_int in
   Printf.printf "== program %d %s\n" idx p.header;
+  if !with_inv && not (wf_prog prog) then Printf.printf "INV NOTWF 0\n";
   let m = ref (init p.conf) in
   let halted = ref false in
   List.iteri (fun k c ->
